@@ -228,5 +228,34 @@ func buildObjPool(size int) *objPool {
 			p.add(geojson.NewLineString(ln), "LineString", ln)
 		}
 	}
+	// points carrying more than x,y: a third ordinate (two different values at
+	// the same position), a parsed position with z and m, a point with a
+	// foreign member. Predicates are planar: each answers as the plain point.
+	for _, q := range []geometry.Point{{X: 0, Y: 0}, {X: 1, Y: 1}, {X: 0.5, Y: 0.5}} {
+		base := p.add(geojson.NewPoint(q), "Point", q)
+		for _, mk := range []func() geojson.Object{
+			func() geojson.Object { return geojson.NewPointZ(q, 3) },
+			func() geojson.Object { return geojson.NewPointZ(q, 4) },
+			func() geojson.Object {
+				o, err := geojson.Parse(fmt.Sprintf(`{"type":"Point","coordinates":[%v,%v,12,7]}`, q.X, q.Y), nil)
+				if err != nil {
+					panic(err)
+				}
+				return o
+			},
+			func() geojson.Object {
+				o, err := geojson.Parse(fmt.Sprintf(`{"type":"Point","coordinates":[%v,%v],"id":7}`, q.X, q.Y), nil)
+				if err != nil {
+					panic(err)
+				}
+				return o
+			},
+		} {
+			z := p.add(mk(), "Point", q)
+			p.equiv(z, base)
+			p.add(geojson.NewFeature(mk(), ""), "Feature", nil)
+			p.add(geojson.NewGeometryCollection([]geojson.Object{mk()}), "GeometryCollection", nil)
+		}
+	}
 	return p
 }
